@@ -98,7 +98,7 @@ FAULT = {
 }
 
 CAND = {
-    'C02': dict(quick=dict(states=48, nq=8, claims=6), thorough=dict(states=900, nq=20, claims=12)),
+    'C02': dict(quick=dict(states=60, nq=20, claims=2), thorough=dict(states=1200, nq=30, claims=6)),
     'C03': dict(quick=dict(states=60, nq=25), thorough=dict(states=1500, nq=40)),
     'C13': dict(quick=dict(states=48, nq=40), thorough=dict(states=800, nq=80)),
     'C20': dict(quick=dict(states=36, nq=5, maxlimit=5, reps=1), thorough=dict(states=400, nq=8, maxlimit=12, reps=3)),
